@@ -36,14 +36,14 @@ structure OpsLex (ops : SinkOps κ) (inp : Bytes) (J : κ → Prop) : Prop where
   handleNonTag : ∀ lx k, J k → J (ops.handleNonTag inp lx k).1 ∧ ∀ e, (ops.handleNonTag inp lx k).2 = .error e → NoU2 e
 
 /-- a lexer machine that was never loaded from a scanner bookmark -/
-def LInv (J : κ → Prop) (m : M κ) : Prop := J m.x.sink ∧ Inv m.x.sim ∧ ∃ l, m.r = .lexer l ∧ l.fd = .none
+def LxInv (J : κ → Prop) (m : M κ) : Prop := J m.x.sink ∧ Inv m.x.sim ∧ ∃ l, m.r = .lexer l ∧ l.fd = .none
 
 def SigLex : Signal → Prop
   | .err e => NoU2 e
   | .endOfInput _ => True
   | .directive _ _ => False
 
-def LPost (J : κ → Prop) (r : M κ × Option Signal) : Prop := LInv J r.1 ∧ ∀ sig, r.2 = some sig → SigLex sig
+def LPost (J : κ → Prop) (r : M κ × Option Signal) : Prop := LxInv J r.1 ∧ ∀ sig, r.2 = some sig → SigLex sig
 
 /-! ### the feedback computed for a token fits the token -/
 
@@ -146,7 +146,7 @@ theorem lexHandleFeedback_fits {inp : Bytes} {c : Common} {sim : Sim} (hi : Inv 
 section
 variable {env : Env κ} {inp : Bytes} {J : κ → Prop}
 
-theorem LPost.none {m : M κ} (h : LInv J m) : LPost J (m, none) := ⟨h, fun _ h' => by cases h'⟩
+theorem LPost.none {m : M κ} (h : LxInv J m) : LPost J (m, none) := ⟨h, fun _ h' => by cases h'⟩
 
 theorem lexEmitNonTag_lex (h : OpsLex env.ops inp J) (c : Common) (l : LexRegs) (x : Ctx κ)
     (o : Option NonTagOutline) (e : Nat) (hJ : J x.sink) (hi : Inv x.sim) (hfd : l.fd = .none) :
@@ -169,7 +169,7 @@ theorem lexEmitText_lex (h : OpsLex env.ops inp J) (c : Common) (l : LexRegs) (x
   · exact lexEmitNonTag_lex h _ _ _ _ _ hJ hi hfd
   · exact LPost.none ⟨hJ, hi, _, rfl, hfd⟩
 
-theorem lexEmitEof_lex (h : OpsLex env.ops inp J) (m : M κ) (hm : LInv J m) : LPost J (lexEmitEof env inp m) := by
+theorem lexEmitEof_lex (h : OpsLex env.ops inp J) (m : M κ) (hm : LxInv J m) : LPost J (lexEmitEof env inp m) := by
   unfold lexEmitEof
   obtain ⟨hJ, hi, l, hl, hfd⟩ := hm
   split
@@ -180,7 +180,7 @@ theorem lexEmitEof_lex (h : OpsLex env.ops inp J) (m : M κ) (hm : LInv J m) : L
   · exact LPost.none ⟨hJ, hi, l, hl, hfd⟩
 
 theorem andThen_lex (r : M κ × Option Signal) (g : M κ → M κ × Option Signal) (hr : LPost J r)
-    (hg : ∀ m, LInv J m → LPost J (g m)) : LPost J (andThen r g) := by
+    (hg : ∀ m, LxInv J m → LPost J (g m)) : LPost J (andThen r g) := by
   unfold andThen
   split
   · rename_i s hs
@@ -258,7 +258,7 @@ theorem lexAct_lexo (h : OpsLex env.ops inp J) (a : ActName) (c : Common) (l : L
         | (simp only [Option.some.injEq] at h; subst h
            first | exact NoU2.panic (by simp [U2]) | exact NoU2.internal _)⟩
 
-theorem act_lexo (h : OpsLex env.ops inp J) (a : ActName) (m : M κ) (hm : LInv J m) : LPost J (act env a inp m) := by
+theorem act_lexo (h : OpsLex env.ops inp J) (a : ActName) (m : M κ) (hm : LxInv J m) : LPost J (act env a inp m) := by
   unfold act
   obtain ⟨hJ, hi, l, hl, hfd⟩ := hm
   split
@@ -270,7 +270,7 @@ theorem act_lexo (h : OpsLex env.ops inp J) (a : ActName) (m : M κ) (hm : LInv 
     rw [hl] at hs
     cases hs
 
-theorem runCalls_lexo (h : OpsLex env.ops inp J) (cs : List Call) (m : M κ) (hm : LInv J m) :
+theorem runCalls_lexo (h : OpsLex env.ops inp J) (cs : List Call) (m : M κ) (hm : LxInv J m) :
     LPost J (runCalls env inp cs m) := by
   induction cs generalizing m with
   | nil => exact LPost.none hm
@@ -284,7 +284,7 @@ theorem runCalls_lexo (h : OpsLex env.ops inp J) (cs : List Call) (m : M κ) (hm
       · exact ih _ h1.1
     · exact ih _ h1.1
 
-theorem applyTrans_lexo (t : Trans) (m : M κ) (hm : LInv J m) : LPost J (applyTrans env t m) := by
+theorem applyTrans_lexo (t : Trans) (m : M κ) (hm : LxInv J m) : LPost J (applyTrans env t m) := by
   cases t <;> simp only [applyTrans]
   · exact LPost.none hm
   · exact LPost.none hm
@@ -294,9 +294,9 @@ theorem applyTrans_lexo (t : Trans) (m : M κ) (hm : LInv J m) : LPost J (applyT
     · exact LPost.none hm
 
 def LPost3 (J : κ → Prop) (r : M κ × Option Signal × SeqEnd) : Prop :=
-  LInv J r.1 ∧ ∀ sig, r.2.1 = some sig → SigLex sig
+  LxInv J r.1 ∧ ∀ sig, r.2.1 = some sig → SigLex sig
 
-theorem runSeq_lexo (h : OpsLex env.ops inp J) (s : ActSeq) (m : M κ) (hm : LInv J m) :
+theorem runSeq_lexo (h : OpsLex env.ops inp J) (s : ActSeq) (m : M κ) (hm : LxInv J m) :
     LPost3 J (runSeq env inp s m) := by
   unfold runSeq
   have h1 := runCalls_lexo h s.calls m hm
@@ -310,7 +310,7 @@ theorem runSeq_lexo (h : OpsLex env.ops inp J) (s : ActSeq) (m : M κ) (hm : LIn
     · exact ⟨h1.1, fun _ h' => by simp at h'⟩
     · exact applyTrans_lexo _ _ h1.1
 
-theorem runBody_lexo (h : OpsLex env.ops inp J) (b : Body) (m : M κ) (hm : LInv J m) :
+theorem runBody_lexo (h : OpsLex env.ops inp J) (b : Body) (m : M κ) (hm : LxInv J m) :
     LPost3 J (runBody env inp b m) := by
   cases b with
   | seq s => exact runSeq_lexo h s m hm
@@ -323,7 +323,7 @@ theorem runBody_lexo (h : OpsLex env.ops inp J) (b : Body) (m : M κ) (hm : LInv
     · exact runSeq_lexo h _ m hm
     · exact runSeq_lexo h _ m hm
 
-theorem adjustForNextInput_linv (m : M κ) (hm : LInv J m) : LInv J (adjustForNextInput m) := by
+theorem adjustForNextInput_linv (m : M κ) (hm : LxInv J m) : LxInv J (adjustForNextInput m) := by
   obtain ⟨hJ, hi, l, hl, hfd⟩ := hm
   unfold adjustForNextInput
   split
@@ -335,7 +335,7 @@ theorem adjustForNextInput_linv (m : M κ) (hm : LInv J m) : LInv J (adjustForNe
     rw [hl] at hs
     cases hs
 
-theorem break_aux_lex (m' : M κ) (hm : LInv J m') (k : Nat) :
+theorem break_aux_lex (m' : M κ) (hm : LxInv J m') (k : Nat) :
     LPost J (if m'.c.nextPos = 0 ∨ m'.c.nextPos - 1 < k then
         (m', some (Signal.err (.panic "break_on_end_of_input: pos - consumed_byte_count underflow")))
       else
@@ -345,23 +345,23 @@ theorem break_aux_lex (m' : M κ) (hm : LInv J m') (k : Nat) :
       simp only [Option.some.injEq] at h; subst h; exact NoU2.panic (by simp [U2])⟩
   · exact ⟨hm, fun sig h => by simp only [Option.some.injEq] at h; subst h; trivial⟩
 
-theorem breakOnEndOfInput_lex (m : M κ) (hm : LInv J m) : LPost J (breakOnEndOfInput inp m) := by
+theorem breakOnEndOfInput_lex (m : M κ) (hm : LxInv J m) : LPost J (breakOnEndOfInput inp m) := by
   unfold breakOnEndOfInput
   refine break_aux_lex _ ?_ _
   split
   · exact hm
   · exact adjustForNextInput_linv m hm
 
-theorem LInv.isLex {m : M κ} (hm : LInv J m) : m.r.isLex = true := by
+theorem LxInv.isLex {m : M κ} (hm : LxInv J m) : m.r.isLex = true := by
   obtain ⟨_, _, l, hl, _⟩ := hm
   rw [hl]; rfl
 
 def SumLex (J : κ → Prop) : (M κ × Option Signal) ⊕ M κ → Prop
   | .inl r => LPost J r
-  | .inr m => LInv J m
+  | .inr m => LxInv J m
 
 theorem runSeqArms_lexonly (h : OpsLex env.ops inp J) (ch : Option UInt8) (arms : List Arm) (m : M κ)
-    (hm : LInv J m) : SumLex J (runSeqArms env inp ch arms m) := by
+    (hm : LxInv J m) : SumLex J (runSeqArms env inp ch arms m) := by
   induction arms generalizing m with
   | nil => exact hm
   | cons arm rest ih =>
@@ -381,7 +381,7 @@ theorem runSeqArms_lexonly (h : OpsLex env.ops inp J) (ch : Option UInt8) (arms 
     · exact ih m hm
 
 theorem dispatch_lexonly (h : OpsLex env.ops inp J) (ch : Option UInt8) (arms : List Arm) (m : M κ)
-    (hm : LInv J m) : LPost J (dispatch env inp ch arms m) := by
+    (hm : LxInv J m) : LPost J (dispatch env inp ch arms m) := by
   unfold dispatch
   have h1 := runSeqArms_lexonly h ch arms m hm
   split
@@ -411,7 +411,7 @@ theorem dispatch_lexonly (h : OpsLex env.ops inp J) (ch : Option UInt8) (arms : 
         · exact breakOnEndOfInput_lex _ h1
       · exact ⟨h2.1, h2.2⟩
 
-theorem stateFn_lexonly (h : OpsLex env.ops inp J) (m : M κ) (hm : LInv J m) : LPost J (stateFn env inp m) := by
+theorem stateFn_lexonly (h : OpsLex env.ops inp J) (m : M κ) (hm : LxInv J m) : LPost J (stateFn env inp m) := by
   rw [stateFn_eq]
   split
   · exact ⟨hm, fun sig h' => by
@@ -436,10 +436,10 @@ theorem stateFn_lexonly (h : OpsLex env.ops inp J) (m : M κ) (hm : LInv J m) : 
         split <;> exact dispatch_lexonly h _ _ _ hpre.1
       · exact dispatch_lexonly h _ _ _ hpre.1
 
-/-- **Pure lexer mode, parsing loop**: the loop keeps `LInv`, never ends with a directive, and every
+/-- **Pure lexer mode, parsing loop**: the loop keeps `LxInv`, never ends with a directive, and every
 error it ends with is not a `U2` panic. -/
-theorem runLoop_lexonly (h : OpsLex env.ops inp J) (n : Nat) (m : M κ) (hm : LInv J m) :
-    LInv J (runLoop env inp n m).1 ∧ SigLex (runLoop env inp n m).2 := by
+theorem runLoop_lexonly (h : OpsLex env.ops inp J) (n : Nat) (m : M κ) (hm : LxInv J m) :
+    LxInv J (runLoop env inp n m).1 ∧ SigLex (runLoop env inp n m).2 := by
   induction n generalizing m with
   | zero => exact ⟨hm, NoU2.panic (by simp [U2])⟩
   | succ n ih =>
